@@ -112,6 +112,9 @@ func (m *Modifier) ModifyResponse(res *http.Response) error {
 	// Reset the Content-Encoding since we know that the new body isn't encoded.
 	res.Header.Del("Content-Encoding")
 
+	// A Content-Range of the replaced response says nothing about the new body.
+	res.Header.Del("Content-Range")
+
 	// If no range request header is present, or its unit is not bytes (RFC 7233
 	// says to ignore range units that are not understood), return the body as
 	// the response body.
@@ -131,7 +134,7 @@ func (m *Modifier) ModifyResponse(res *http.Response) error {
 			// Suffix range: the last n bytes.
 			n, err := position(rng[1:])
 			if err != nil || n <= 0 {
-				res.StatusCode = http.StatusRequestedRangeNotSatisfiable
+				m.notSatisfiable(res)
 				return nil
 			}
 			if n > len(m.body) {
@@ -145,24 +148,24 @@ func (m *Modifier) ModifyResponse(res *http.Response) error {
 
 		rs := strings.Split(rng, "-")
 		if len(rs) != 2 {
-			res.StatusCode = http.StatusRequestedRangeNotSatisfiable
+			m.notSatisfiable(res)
 			return nil
 		}
 		// A position that is not a number makes the range set invalid.
 		start, err := position(rs[0])
 		if err != nil {
-			res.StatusCode = http.StatusRequestedRangeNotSatisfiable
+			m.notSatisfiable(res)
 			return nil
 		}
 
 		end, err := position(rs[1])
 		if err != nil {
-			res.StatusCode = http.StatusRequestedRangeNotSatisfiable
+			m.notSatisfiable(res)
 			return nil
 		}
 
 		if start > end || start < 0 || start >= len(m.body) {
-			res.StatusCode = http.StatusRequestedRangeNotSatisfiable
+			m.notSatisfiable(res)
 			return nil
 		}
 		// A last position beyond the end means "through the last byte".
@@ -175,6 +178,7 @@ func (m *Modifier) ModifyResponse(res *http.Response) error {
 
 	// Range request.
 	res.StatusCode = http.StatusPartialContent
+	res.Status = fmt.Sprintf("%d %s", res.StatusCode, http.StatusText(res.StatusCode))
 
 	// Single range request.
 	if len(ranges) == 1 {
@@ -217,6 +221,16 @@ func (m *Modifier) ModifyResponse(res *http.Response) error {
 	res.Header.Set("Content-Type", fmt.Sprintf("multipart/byteranges; boundary=%s", m.boundary))
 
 	return nil
+}
+
+// notSatisfiable turns res into a 416 response of its own: the body that was
+// to be replaced is closed and must not travel under the new status.
+func (m *Modifier) notSatisfiable(res *http.Response) {
+	res.StatusCode = http.StatusRequestedRangeNotSatisfiable
+	res.Status = fmt.Sprintf("%d %s", res.StatusCode, http.StatusText(res.StatusCode))
+	res.Header.Set("Content-Range", fmt.Sprintf("bytes */%d", len(m.body)))
+	res.ContentLength = 0
+	res.Body = http.NoBody
 }
 
 // position parses a byte position or suffix length. Digits that do not fit an
